@@ -24,6 +24,25 @@ class FrenchBulldog(Bulldog):
     pass
 
 
+@dataclass
+class Route(Animal):
+    """a serialisable object that is also iterable and sized: still ONE object, not a list"""
+
+    def __iter__(self):
+        return iter([self.name, self.age])
+
+    def __len__(self):
+        return 2
+
+
+# user-registered external types that are related by inheritance, base registered first: each keeps its own pair
+import datetime
+from krrood.adapters.json_serializer import JSONSerializableTypeRegistry
+JSONSerializableTypeRegistry().register(datetime.date, lambda o: {JSON_TYPE_NAME: "datetime.date", "value": o.isoformat()},
+                                        lambda d: datetime.date.fromisoformat(d["value"]))
+JSONSerializableTypeRegistry().register(datetime.datetime, lambda o: {JSON_TYPE_NAME: "datetime.datetime", "value": o.isoformat()},
+                                        lambda d: datetime.datetime.fromisoformat(d["value"]))
+
 a = args()
 rng = random.Random(a.seed)
 rep = Report("C18", "leaves (None, bools, ints up to 10**300, floats incl. inf/-inf/1e-320/-0.0, unicode and escape-laden strings), "
@@ -33,6 +52,7 @@ LEAVES = [None, True, False, 0, -1, 1, 2 ** 63, -2 ** 64, 10 ** 300, 0.0, -0.0, 
           "", "a", "é", "日本語", "\u0000", "퟿", "\"quoted\"", "back\\slash", "line\nbreak", "\U0001F600", " ", "null", "true", "1",
           "__json_type__", "krrood.adapters.json_serializer.SubclassJSONSerializer"]
 OBJECTS = [uuid.UUID(int=0), uuid.UUID("12345678-1234-5678-1234-567812345678"), uuid.uuid4(),
+           Route("r", 5), datetime.date(2020, 2, 29), datetime.datetime(2020, 2, 29, 12, 30, 1),
            Puppy("p", 0, "lab"), FrenchBulldog("f", 1, "fb", True), Animal("a", 1), Dog("d", 2, "lab"), Dog("d", 0), Bulldog("b", 3, "bull", False), Bulldog("", 0), Cat("c", 4, 7), Cat("é", -1)]
 
 
@@ -40,7 +60,7 @@ def exact_equal(x, y):
     if type(x) is not type(y):
         return False
     if isinstance(x, Animal):
-        return x == y and type(x) is type(y)
+        return type(x) is type(y) and vars(x) == vars(y)
     if isinstance(x, list):
         return len(x) == len(y) and all(exact_equal(p, q) for p, q in zip(x, y))
     if isinstance(x, float):
@@ -68,7 +88,7 @@ for o in OBJECTS:
     j = to_json(o)
     if j.get(JSON_TYPE_NAME) != get_full_class_name(type(o)):
         rep.fail("tag", f"{o!r}: serialised form carries {j.get(JSON_TYPE_NAME)!r}, expected {get_full_class_name(type(o))!r}", {"value": repr(o)})
-ATOMS = LEAVES[:8] + LEAVES[16:20] + OBJECTS[:2] + OBJECTS[3:8]
+ATOMS = LEAVES[:8] + LEAVES[16:20] + OBJECTS[:2] + OBJECTS[3:11]
 
 
 def lists(depth, width):
